@@ -39,6 +39,7 @@ int Debug::printf(const char* format, ...)
 // global state of the ledgers
 static bool modeC05 = false;
 static unsigned long nCtor, nDtor, nUad, nDd, nOvr, nTmpCtor, nTmpDtor;   // per history
+static unsigned long opAssigns, opCopies;   // per op: assignments to container-held objects; copy constructions from container-held objects
 static unsigned opSerialStart;     // first object serial handed out by the current op
 static unsigned nextSerial;
 static int curKind = -1;           // kind of the container the current op works on (tags new blocks)
@@ -230,6 +231,7 @@ struct Obj
     else recInsert(this, serial);
     if(isTemp(this)) { ++nTmpCtor; return; }
     ++nCtor;
+    if(src && !isTemp(src)) ++opCopies;
     char a[48], b[48], t[128];
     locStr(this, a, sizeof(a));
     if(src) { locStr(src, b, sizeof(b)); snprintf(t, sizeof(t), "%s%s<%s", how, a, b); }
@@ -255,6 +257,7 @@ struct Obj
     bool okd = alive(this), oks = alive(&o);
     if(!isTemp(this))
     {
+      ++opAssigns;
       char a[48], b[48], t[128];
       locStr(this, a, sizeof(a));
       locStr(&o, b, sizeof(b));
@@ -401,14 +404,14 @@ static void createVar(int k, int v)
 // ---- C05: iterators saved when an element object was first seen ---------------------------------------
 template<class C> struct IterReg
 {
-  struct E { unsigned serial; typename C::Iterator it; const void* addr; };
+  struct E { unsigned serial; typename C::Iterator it; const void* addr; int ident; };   // ident: the logical identity (key; value payload for the lists) the object had when first seen
   E e[4096];
   unsigned n;
   E* find(unsigned serial) { for(unsigned i = 0; i < n; ++i) if(e[i].serial == serial) return &e[i]; return 0; }
-  void add(unsigned serial, const typename C::Iterator& it, const void* addr)
+  void add(unsigned serial, const typename C::Iterator& it, const void* addr, int ident)
   {
     if(n >= 4096) { fprintf(stderr, "iterator registry overflow\n"); abort(); }
-    e[n].serial = serial; e[n].it = it; e[n].addr = addr; ++n;
+    e[n].serial = serial; e[n].it = it; e[n].addr = addr; e[n].ident = ident; ++n;
   }
   // forget the iterators of objects that are gone
   void sweep()
@@ -425,19 +428,21 @@ template<class C> struct IterReg
 static IterReg<TL> regL; static IterReg<TM> regM; static IterReg<TU> regU; static IterReg<TH> regH;
 static IterReg<TS> regS; static IterReg<TP> regP; static IterReg<TQ> regQ;
 
-// flag of one element object: its address must be the one in the ledger under its serial
-template<class C> static char flagOf(IterReg<C>& reg, const typename C::Iterator& it, const Obj* o)
+// flag of one element object: its address must be the one in the ledger under its serial, and the object must still
+// stand for the same logical element (`ident` = key of the item; payload for List / PoolList, where only the harness's own
+// `set` changes it): an element whose key/value was ASSIGNED into another node has moved, even though no object was constructed
+template<class C> static char flagOf(IterReg<C>& reg, const typename C::Iterator& it, const Obj* o, int ident)
 {
   Rec* r = recFind(o);
   if(!r || r->serial != o->serial) return 'm';
   if(o->serial >= opSerialStart)
   {
-    if(!reg.find(o->serial)) reg.add(o->serial, it, o);
+    if(!reg.find(o->serial)) reg.add(o->serial, it, o, ident);
     return 'n';
   }
   typename IterReg<C>::E* e = reg.find(o->serial);
-  if(!e) { reg.add(o->serial, it, o); return 's'; }   // first observation of an object that predates the registry
-  if(e->addr != o || e->it != it) return 'm';
+  if(!e) { reg.add(o->serial, it, o, ident); return 's'; }   // first observation of an object that predates the registry
+  if(e->addr != o || e->it != it || e->ident != ident) return 'm';
   return 's';
 }
 static char both(char a, char b) { return a == b ? a : 'm'; }
@@ -466,13 +471,13 @@ static void showVar(int k, int v)
   case KA: { TA& a = V<TA>(k, v); printf("%lu/", (unsigned long)a.capacity()); bool first = true;
              for(usize i = 0; i < a.size(); ++i) { putElem(first); printf("%d", ((Tracked*)a)[i].read()); } if(first) fputc('-', stdout); } break;
   // C05: the element must also be what find(key) designates (unique-key containers)
-  case KL: walk(V<TL>(k, v), [](TL&, TL::Iterator& i) { printf("%d", (*i).read()); if(modeC05) fputc(flagOf(regL, i, &*i), stdout); }); break;
-  case KM: walk(V<TM>(k, v), [](TM& c, TM::Iterator& i) { printf("%d:%d", i.key().read(), (*i).read()); if(modeC05) fputc(c.find(i.key()) != i ? 'm' : both(flagOf(regM, i, &i.key()), flagOf(regM, i, &*i)), stdout); }); break;
-  case KU: walk(V<TU>(k, v), [](TU&, TU::Iterator& i) { printf("%d:%d", i.key().read(), (*i).read()); if(modeC05) fputc(both(flagOf(regU, i, &i.key()), flagOf(regU, i, &*i)), stdout); }); break;
-  case KH: walk(V<TH>(k, v), [](TH& c, TH::Iterator& i) { printf("%d:%d", i.key().read(), (*i).read()); if(modeC05) fputc(c.find(i.key()) != i ? 'm' : both(flagOf(regH, i, &i.key()), flagOf(regH, i, &*i)), stdout); }); break;
-  case KS: walk(V<TS>(k, v), [](TS& c, TS::Iterator& i) { printf("%d", (*i).read()); if(modeC05) fputc(c.find(*i) != i ? 'm' : flagOf(regS, i, &*i), stdout); }); break;
-  case KP: walk(V<TP>(k, v), [](TP&, TP::Iterator& i) { printf("%d", (*i).read()); if(modeC05) fputc(flagOf(regP, i, &*i), stdout); }); break;
-  case KQ: walk(V<TQ>(k, v), [](TQ& c, TQ::Iterator& i) { printf("%d:%d", i.key().read(), (*i).read()); if(modeC05) fputc(c.find(i.key()) != i ? 'm' : both(flagOf(regQ, i, &i.key()), flagOf(regQ, i, &*i)), stdout); }); break;
+  case KL: walk(V<TL>(k, v), [](TL&, TL::Iterator& i) { printf("%d", (*i).read()); if(modeC05) fputc(flagOf(regL, i, &*i, (*i).read()), stdout); }); break;
+  case KM: walk(V<TM>(k, v), [](TM& c, TM::Iterator& i) { printf("%d:%d", i.key().read(), (*i).read()); if(modeC05) fputc(c.find(i.key()) != i ? 'm' : both(flagOf(regM, i, &i.key(), i.key().read()), flagOf(regM, i, &*i, i.key().read())), stdout); }); break;
+  case KU: walk(V<TU>(k, v), [](TU&, TU::Iterator& i) { printf("%d:%d", i.key().read(), (*i).read()); if(modeC05) fputc(both(flagOf(regU, i, &i.key(), i.key().read()), flagOf(regU, i, &*i, i.key().read())), stdout); }); break;
+  case KH: walk(V<TH>(k, v), [](TH& c, TH::Iterator& i) { printf("%d:%d", i.key().read(), (*i).read()); if(modeC05) fputc(c.find(i.key()) != i ? 'm' : both(flagOf(regH, i, &i.key(), i.key().read()), flagOf(regH, i, &*i, i.key().read())), stdout); }); break;
+  case KS: walk(V<TS>(k, v), [](TS& c, TS::Iterator& i) { printf("%d", (*i).read()); if(modeC05) fputc(c.find(*i) != i ? 'm' : flagOf(regS, i, &*i, (*i).read()), stdout); }); break;
+  case KP: walk(V<TP>(k, v), [](TP&, TP::Iterator& i) { printf("%d", (*i).read()); if(modeC05) fputc(flagOf(regP, i, &*i, (*i).read()), stdout); }); break;
+  case KQ: walk(V<TQ>(k, v), [](TQ& c, TQ::Iterator& i) { printf("%d:%d", i.key().read(), (*i).read()); if(modeC05) fputc(c.find(i.key()) != i ? 'm' : both(flagOf(regQ, i, &i.key(), i.key().read()), flagOf(regQ, i, &*i, i.key().read())), stdout); }); break;
   }
 }
 
@@ -488,7 +493,7 @@ static void observe(int k)
   if(modeC05)
   {
     regL.sweep(); regM.sweep(); regU.sweep(); regH.sweep(); regS.sweep(); regP.sweep(); regQ.sweep();
-    printf(" # u=%lu dd=%lu ov=%lu", nUad, nDd + nDoubleFree, nOvr);
+    printf(" # u=%lu dd=%lu ov=%lu as=%lu cp=%lu", nUad, nDd + nDoubleFree, nOvr, opAssigns, opCopies);
   }
   else
     printf(" # c=%lu d=%lu live=%lu u=%lu dd=%lu ov=%lu b=%u t=%lu # %s", nCtor, nDtor, liveObjects(), nUad, nDd + nDoubleFree, nOvr,
@@ -546,12 +551,13 @@ int main(int argc, char** argv)
   {
     evlen = 0; evlog[0] = 0;
     curKind = -1;
+    opAssigns = opCopies = 0;
     opSerialStart = nextSerial;
     if(OP("reset", 0)) { resetAll(); printf("reset"); hxEndLine(); continue; }
     if(OP("destroyall", 0))
     {
       destroyAll();
-      if(modeC05) printf("end # u=%lu dd=%lu ov=%lu", nUad, nDd + nDoubleFree, nOvr);
+      if(modeC05) printf("end # u=%lu dd=%lu ov=%lu as=%lu cp=%lu", nUad, nDd + nDoubleFree, nOvr, opAssigns, opCopies);
       else printf("end # c=%lu d=%lu live=%lu u=%lu dd=%lu ov=%lu b=%u t=%lu # %s", nCtor, nDtor, liveObjects(), nUad, nDd + nDoubleFree, nOvr,
                   liveBlocks, nTmpCtor - nTmpDtor, evlen ? evlog : "-");
       hxEndLine();
@@ -700,7 +706,14 @@ int main(int argc, char** argv)
       else if(IS("remove", 2)) { NEED(a2 < c.size()); c.remove(at(c, a2)); }
       else if(IS("removeval", 2)) { Tracked t((int)a2); c.remove(t); }
       else if(IS("removevalref", 2)) { NEED(a2 < c.size()); c.remove(*at(c, a2)); }
-      else if(IS("set", 3)) { NEED(a2 < c.size()); Tracked t((int)a3); *at(c, a2) = t; }
+      else if(IS("set", 3))
+      {
+        NEED(a2 < c.size());
+        Tracked t((int)a3);
+        TL::Iterator it = at(c, a2);
+        *it = t;
+        if(IterReg<TL>::E* e = regL.find((*it).serial)) e->ident = (int)a3;   // the caller overwrote the element: same object, new payload
+      }
       else { bad(); continue; }
     }
     // ---- Map -----------------------------------------------------------------------------------
